@@ -220,3 +220,17 @@ CHECKS["C08"] = {
     "level_note": "Trusted: the MySQL/Postgres grammar models and the reference renderer's per-dialect forms (no such engines in the sandbox).",
     "min_nontrivial": 300,
 }
+
+CHECKS["C15"] = {
+    "parts": BASE,
+    "level": "exploration",
+    "technique": "runtime monitor: branching replay of call histories built from pre-built arguments — at every prefix position take(), clone (both directions) and every clear_*/reset_* are applied and compared (== / Debug / renderings on 3 backends) with the statement rebuilt from the same history, for clear operations with that clause's calls filtered out",
+    "rule": "histories of length <= 12 (quick) / 25 (thorough) over 22 SelectStatement call kinds (expr/column/expr_as/distinct/from/from_subquery/join/and_where/cond_where/group/having/order/limit/offset/union/lock/index hint/table sample/distinct_on/window/with_cte) and shorter histories for WindowStatement, Insert/Update/Delete (Clone, clear_order_by), ColumnDef, TableCreate/Alter/Drop/Rename/Truncate, IndexCreate, ForeignKeyCreate; branching at every position; non-trivial = history of >= 3 calls; distinct = distinct (type, history)",
+    "assumptions": [
+        "schema statements have no PartialEq: equality there is Debug equality plus identical renderings",
+        "`==` between statements is only used between statements whose identifiers are of the same Rust type (SeaRc::eq compares vtable addresses)",
+    ],
+    "design_ref": "DESIGN.md §5 C15",
+    "level_text": "The executable meaning of 'removes exactly that clause and nothing else' is 'equals the statement built from the same history without that clause's calls'; of take 'the taken value equals the value before, and continuing on it ends where the unbranched history ends, and the source equals a new statement'; of clone 'later changes to either never show in the other'. Each is checked at every position of every generated history.",
+    "level_note": "Trusted: the per-call clause labels in c15.rs (which calls belong to which clearable clause).",
+}
